@@ -105,6 +105,15 @@ def cases(it, S):
     add("union of different strands", f"{LOC}:SingleInterval.union", lambda: it.call_func(it.repo.fn(f"{LOC}:SingleInterval.union"), [si(5, 9, S["MINUS"])], {}, si(3, 8, S["PLUS"]), 0), {"ValueError"})
     add("location_relative_to without overlap", "location.location:Location.location_relative_to",
         lambda: it.call_func(it.repo.fn("location.location:Location.location_relative_to"), [si(20, 25, S["PLUS"])], {}, si(3, 8, S["PLUS"]), 0), {"LocationOverlapException"})
+    # distances are only defined inside one coordinate system: every distance type refuses mismatched parents, on both classes
+    DT = it.enum("DistanceType")
+    other_par = mk_parent(it, id="another_chromosome")
+    for dt in ("INNER", "OUTER", "STARTS", "ENDS"):
+        for rcls, rmk in (("SingleInterval", lambda p_: si(3, 8, S["PLUS"], parent=p_)), ("CompoundInterval", lambda p_: ci([3, 12], [8, 15], S["PLUS"], parent=p_))):
+            for acls, amk in (("single", lambda p_: si(20, 25, S["PLUS"], parent=p_)), ("compound", lambda p_: ci([20, 30], [25, 33], S["PLUS"], parent=p_))):
+                add(f"{rcls}.distance_to({acls}, {dt}) across different parents", f"{LOC}:{rcls}.distance_to",
+                    (lambda rcls=rcls, rmk=rmk, amk=amk, dt=dt: it.call_func(it.repo.fn(f"{LOC}:{rcls}.distance_to"), [amk(other_par), DT[dt]], {}, rmk(par), 0)),
+                    {"MismatchedParentException", "NullParentException"})
     add("set algebra with mismatched parents (strict)", f"{LOC}:SingleInterval.intersection",
         lambda: it.call_func(it.repo.fn(f"{LOC}:SingleInterval.intersection"), [si(5, 9, S["PLUS"], parent="other")], {"strict_parent_compare": True}, si(3, 8, S["PLUS"], parent=par), 0), {"MismatchedParentException"})
     add("lift-over without such ancestor", "location.location:Location.lift_over_to_first_ancestor_of_type",
@@ -221,6 +230,39 @@ def rk_corruptions(ctx):
     r.floor("C19.RK", "corrupted inputs", n, 70)
 
 
+def rb_built_objects_well_formed(ctx):
+    """valid constructor calls at extreme coordinates (at and around the upper limit of the binning scheme) build well-formed
+    objects: the stored bin is one integer bin id, start / end are the given integers, the location has that span"""
+    r, repo = ctx.r, ctx.repo
+    it = gene_interp(repo, max_steps=10 ** 9)
+    S = strands(it)
+    top = 2 ** 29
+    n = 0
+    for lo, hi in ((top - 100, top), (top - 100, top - 1), (top - 1, top), (top, top + 50), (top - 50, top + 50), (0, top), (131072, 262144)):
+        for kind in ("TranscriptInterval", "FeatureInterval", "GeneInterval", "FeatureIntervalCollection", "VariantInterval", "AnnotationCollection"):
+            n += 1
+            mod = {"TranscriptInterval": "gene.transcript", "FeatureInterval": "gene.feature", "GeneInterval": "gene.gene",
+                   "FeatureIntervalCollection": "gene.feature", "VariantInterval": "gene.variants", "AnnotationCollection": "gene.collections"}[kind]
+            q = f"{mod}:{kind}.__init__"
+            try:
+                tx = mk_transcript(it, [(lo, hi)], S["PLUS"])
+                ft = mk_feature(it, [(lo, hi)], S["MINUS"])
+                o = {"TranscriptInterval": lambda: tx, "FeatureInterval": lambda: ft, "GeneInterval": lambda: mk_gene(it, [tx]),
+                     "FeatureIntervalCollection": lambda: mk_feature_collection(it, [ft]),
+                     "VariantInterval": lambda: it.apply(ClassTok("VariantInterval"), [lo, hi, "A", "x"], {}, None, 0),
+                     "AnnotationCollection": lambda: mk_collection(it, [mk_gene(it, [tx])], None, start=lo, end=hi)}[kind]()
+            except Raised as ex:
+                r.violation("C19.RB", q, f"[{lo},{hi}) accepted", f"{kind} over the valid interval [{lo},{hi}) is refused with {ex.exc_name}", repo.fn(q))
+                continue
+            b = o.fields.get("bin")
+            ok = isinstance(b, int) and not isinstance(b, bool) and o.fields.get("start") == lo and o.fields.get("end") == hi
+            r.check(ok, "C19.RB", q, f"well-formed at [{'2^29' if lo == top else lo if lo < 10 ** 6 else '2^29-' + str(top - lo)},"
+                    f"{'2^29' if hi == top else '2^29+' + str(hi - top) if hi > top else hi if hi < 10 ** 6 else '2^29-' + str(top - hi)})",
+                    f"{kind} over [{lo},{hi}) is built with bin={b!r} (type {type(b).__name__}), start={o.fields.get('start')}, end={o.fields.get('end')}: "
+                    f"the stored bin must be one integer bin id", repo.fn(q))
+    r.floor("C19.RB", "objects built at extreme coordinates", n, 30)
+
+
 def r1_raise_discipline(ctx):
     r, repo = ctx.r, ctx.repo
     it = gene_interp(repo)
@@ -323,6 +365,7 @@ def r7_optional_attrs(ctx):
 
 RULES = [
     ("C19.RK", rk_corruptions),
+    ("C19.RB", rb_built_objects_well_formed),
     ("C19.R1", r1_raise_discipline),
     ("C19.R4", r4_recursion),
     ("C19.R7", r7_optional_attrs),
